@@ -8,6 +8,9 @@ import Jqawk.Model.Parser
 import Jqawk.Lemmas.ReadOnlyDoc
 import Jqawk.Lemmas.AssignFrame
 import Jqawk.Lemmas.AssignCreate
+import Jqawk.Lemmas.AssignChain
+import Jqawk.Lemmas.ReadBack
+import Jqawk.Lemmas.CopyShare
 
 namespace Jqawk.C09
 open Jqawk
@@ -807,5 +810,1085 @@ example : (match evalExpr Program.empty 12 (assign (dot dollar b!"new") (numL b!
       (F64.parse b!"7").map Val.num == some (s'.heap.get c) &&
       oldCellsSame exHeap s'.heap [] && s'.heap.arr 0 == exHeap.arr 0
     | _ => false) = true := by decide +kernel
+
+
+/-! ### creating assignments through any number of missing levels -/
+
+/-- Clause "assigning … changes exactly the addressed location — creating missing intermediate
+    objects (for string keys) or arrays (for numeric indices) … — and leaves every other part of
+    every value … unchanged", frame part, for ANY number of missing levels (`o.x.y.z = e`,
+    `a[3][1].k = e`, `u.a[2] = e` with `u` unset; the recursive branch of
+    `createSpeculativeObjects`).  The target evaluates to a stand-in cell `sc` whose chain of
+    missing parents is `cs`, ending at the base cell `b` (`ChainV`; the stand-in may also be of
+    the method kind, `o.length = 5`).  With read-only target and source: evaluating both changes
+    nothing (`HeapPreserved s s2`), and the store leaves every cell that existed unchanged except
+    `sc`, the stand-in cells `cs`, and `b` if it was unset; every array other than the one `b`
+    holds and every object other than the one `b` holds keeps its contents. -/
+theorem assign_chain_frame (prog : Program) (k : Bool) (n : Nat) (l r : Expr) (op : Token)
+    (s s1 s2 : St) (sc rc b : CellId) (cs : List CellId)
+    (hk : k = true → prog.FnsRO ∧ ObjsInRange s.heap)
+    (hl : Expr.readOnly k l = true) (hr : Expr.readOnly k r = true) (hop : op.tag = .equal)
+    (h1 : evalExpr prog n l s = .ok sc s1) (h2 : evalExpr prog n r s1 = .ok rc s2)
+    (hc : ChainV s2.heap b (s2.heap.get sc) cs) :
+    HeapPreserved s.heap s2.heap ∧
+    SpecAfter s2.heap sc b cs (evalExpr prog (n + 2) (.binary l r op) s) :=
+  ⟨readonly_pair_preserved prog k n l r s s1 s2 sc rc hk hl hr h1 h2,
+   assign_chain_heapFrame prog n l r op s s1 s2 sc rc b cs hop h1 h2 hc⟩
+
+/-- a store into a member or index of a scalar — `s[0] = x` on a string, `n.k = x` on a number —
+    is the runtime error "cannot set member on a scalar" (at the target's position) and changes
+    nothing at all -/
+theorem assign_scalar_member_errors (prog : Program) (n : Nat) (l r : Expr) (op : Token)
+    (s s1 s2 : St) (sc rc b : CellId) (key : Key) (hop : op.tag = .equal)
+    (h1 : evalExpr prog n l s = .ok sc s1) (h2 : evalExpr prog n r s1 = .ok rc s2)
+    (hsp : (s2.heap.get sc).spec? = some ⟨b, key⟩)
+    (hb1 : ∀ a, s2.heap.get b ≠ .arr a) (hb2 : ∀ o, s2.heap.get b ≠ .obj o)
+    (hb3 : s2.heap.get b ≠ .unknown) (hb4 : ∀ sp, s2.heap.get b ≠ .nil sp) :
+    evalExpr prog (n + 2) (.binary l r op) s =
+      Jqawk.throwRt l.token.pos "cannot set member on a scalar" s2 := by
+  have e : evalExpr prog (n + 2) (.binary l r op) s = evalAssignment l.token.pos sc rc s2 := by
+    unfold evalExpr
+    dsimp only
+    unfold evalBinary
+    simp only [bind, EM.bind, h1, hop, h2]
+  rw [e]
+  exact evalAssignment_scalar_base _ _ _ _ _ _ hsp hb1 hb2 hb3 hb4
+
+/-- `$.x.y.z` -/
+def exDeep : Expr := dot (dot (dot dollar b!"x") b!"y") b!"z"
+
+/-- `$.x.y.z = 7` on the example state: the target is the stand-in cell 11 for `z`, whose missing
+    parents are the stand-ins 9 (`y`) and 7 (`x`), ending at the root cell 0 — the hypothesis
+    `ChainV` of `assign_chain_frame` holds -/
+example :
+    let r1 := evalExpr Program.empty 10 exDeep exSt
+    let r2 := evalExpr Program.empty 10 (numL b!"7") (resState r1)
+    r1 = .ok 11 (resState r1) ∧ r2 = .ok 12 (resState r2) ∧
+    ChainV (resState r2).heap 0 ((resState r2).heap.get 11) [9, 7] := by
+  refine ⟨eq_ok_of_resVal (by decide +kernel), eq_ok_of_resVal (by decide +kernel), ?_⟩
+  refine .step (key := .str b!"z") (sp := ⟨7, .str b!"y"⟩) (by decide +kernel) (by decide +kernel) ?_
+  refine .step (key := .str b!"y") (sp := ⟨0, .str b!"x"⟩) (by decide +kernel) (by decide +kernel) ?_
+  refine .base (key := .str b!"x") (by decide +kernel) (by decide +kernel) ?_ ?_
+  · intro sp
+    have e : (resState (evalExpr Program.empty 10 (numL b!"7")
+        (resState (evalExpr Program.empty 10 exDeep exSt)))).heap.get 0 = .obj 0 := by decide +kernel
+    rw [e]; simp
+  · intro a ha
+    have e : (resState (evalExpr Program.empty 10 (numL b!"7")
+        (resState (evalExpr Program.empty 10 exDeep exSt)))).heap.get 0 = .obj 0 := by decide +kernel
+    rw [e] at ha; cases ha
+
+/-- … and its effect, including read-after-write: afterwards `$.x.y.z` reads 7, the old cells,
+    the array and every old member of the root are as before -/
+example :
+    (match evalExpr Program.empty 14 (assign exDeep (numL b!"7")) exSt with
+     | .ok _ s' =>
+       (match evalExpr Program.empty 14 exDeep s' with
+        | .ok c s'' => (F64.parse b!"7").map Val.num == some (s''.heap.get c)
+        | _ => false) &&
+       oldCellsSame exHeap s'.heap [] && s'.heap.arr 0 == exHeap.arr 0 &&
+       objLookup (s'.heap.obj 0) b!"a" == some 1 && objLookup (s'.heap.obj 0) b!"s" == some 4 &&
+       objLookup (s'.heap.obj 0) b!"u" == some 5
+     | _ => false) = true := by decide +kernel
+
+/-- `$.u.a[2] = 7` with `$.u` unset: `$.u` becomes `{"a": [null, null, 7]}`; read-after-write -/
+example :
+    (match evalExpr Program.empty 14 (assign (idx (dot (dot dollar b!"u") b!"a") (numL b!"2")) (numL b!"7")) exSt with
+     | .ok _ s' =>
+       (match evalExpr Program.empty 14 (idx (dot (dot dollar b!"u") b!"a") (numL b!"2")) s' with
+        | .ok c s'' => (F64.parse b!"7").map Val.num == some (s''.heap.get c)
+        | _ => false) &&
+       (match evalExpr Program.empty 14 (mcall (dot (dot dollar b!"u") b!"a") b!"length" []) s' with
+        | .ok c s'' => (F64.parse b!"3").map Val.num == some (s''.heap.get c)
+        | _ => false) &&
+       oldCellsSame exHeap s'.heap [5] && s'.heap.arr 0 == exHeap.arr 0 && s'.heap.obj 0 == exHeap.obj 0
+     | _ => false) = true := by decide +kernel
+
+/-- `$.s[0] = 7` on the string `$.s`: a runtime error, nothing changes -/
+example : (match evalExpr Program.empty 14 (assign (idx (dot dollar b!"s") (numL b!"0")) (numL b!"7")) exSt with
+    | .err (.runtime _ m) s' => m == "cannot set member on a scalar" && sameOld exHeap s'.heap
+    | _ => false) = true := by decide +kernel
+
+/-- `$.a.length = 5`: the stand-in is of the method kind; the store fails ("array indices must be
+    numbers") and nothing changes; on the object `$` it sets an own key `length` -/
+example :
+    (match evalExpr Program.empty 14 (assign (dot (dot dollar b!"a") b!"length") (numL b!"5")) exSt with
+     | .err (.runtime _ _) s' => sameOld exHeap s'.heap
+     | _ => false) = true ∧
+    (match evalExpr Program.empty 14 (assign (dot dollar b!"length") (numL b!"5")) exSt with
+     | .ok c s' => objLookup (s'.heap.obj 0) b!"length" == some c &&
+         (F64.parse b!"5").map Val.num == some (s'.heap.get c) && oldCellsSame exHeap s'.heap []
+     | _ => false) = true := by decide +kernel
+
+
+/-! ### read-after-write
+
+  A *path* (`Expr.isPath`) is an identifier or `$` followed by literal member names (`.name`),
+  literal string indices (`["name"]`) and literal non-negative number indices (`[2]`).  NOT a
+  path: a negative index `a[-1]` (a unary minus applied to a literal; after padding an array a
+  negative index denotes another element) and computed keys (`a[i]`, `o[k]`): not covered.
+
+  `PathOK s` (Lemmas/ReadBack.lean) is the well-formedness of the start state the proof needs:
+  cells refer to allocated arrays / objects; every array element, object member, variable binding
+  and `$` is an allocated cell that is not a stand-in for a missing member.  It is decidable
+  (all quantifiers bounded), see the examples; it cannot be dropped (`exStale` below). -/
+
+/-- Clause "creating missing intermediate objects (for string keys) or arrays (for numeric
+    indices), padding arrays with null up to a new index" — what `createSpeculativeObjects` has
+    built when it succeeds, for ANY number of missing levels (`LinkRes`/`Linked`, by induction
+    on the fuel along the chain `cs` of stand-in cells, base cell `b`): the cell `c` it returns is
+    the member `key` of the value the parent cell holds now (`self`); every stand-in parent `z`
+    of the chain (standing for the member `key'` of `p'`) now holds a fresh container, and the
+    value `p'` holds now has a fresh member cell `np` under `key'` that refers to the same
+    container (`chain`); `c` holds what the stand-in held (`val`); no member or element that
+    existed has been replaced (`ext`); the base held a container or was unset and holds a
+    container now (`base`, `baseCont`); besides: the frame (`SpecFrame`, as
+    `createSpeculative_frame`) and nothing but the heap changes. -/
+theorem createSpeculative_links (n : Nat) (sc : CellId) (s : St) (b : CellId) (cs : List CellId)
+    (hc : ChainW s.heap b (s.heap.get sc) cs) : LinkRes s sc b cs (createSpeculative n sc s) :=
+  createSpeculative_linked n sc s b cs hc
+
+/-- the example state is well-formed in the sense of `PathOK` (decidable) -/
+example : PathOK exSt := by decide +kernel
+
+/-- the states of `$.x.y.z = 7` on the example state: after the target, after the source, after
+    the store -/
+def rbDeep1 : St := resState (evalExpr Program.empty 10 exDeep exSt)
+def rbDeep2 : St := resState (evalExpr Program.empty 10 (numL b!"7") rbDeep1)
+def rbDeep3 : St := resState (evalExpr Program.empty 12 (assign exDeep (numL b!"7")) exSt)
+
+/-- `createSpeculative_links` applies to the store of `$.x.y.z = 7`: the stand-in cell 11 (`z`)
+    with the chain of stand-ins 9 (`y`), 7 (`x`) below the root cell 0 (an object without the key
+    `x`) — and the run does succeed, returning cell 11 -/
+example : LinkRes rbDeep2 11 0 [9, 7] (createSpeculative 20 11 rbDeep2) ∧
+    (match createSpeculative 20 11 rbDeep2 with | .ok (.ok c) _ => c == 11 | _ => false) = true := by
+  refine ⟨createSpeculative_links 20 11 rbDeep2 0 [9, 7] ?_, by decide +kernel⟩
+  refine .step (key := .str b!"z") (sp := ⟨7, .str b!"y"⟩) (by decide +kernel) (by decide +kernel) ?_
+  refine .step (key := .str b!"y") (sp := ⟨0, .str b!"x"⟩) (by decide +kernel) (by decide +kernel) ?_
+  have e : rbDeep2.heap.get 0 = .obj 0 := by decide +kernel
+  refine .base (key := .str b!"x") (by decide +kernel) (by decide +kernel) ?_ ?_ ?_
+  · intro sp; rw [e]; simp
+  · intro a ha; rw [e] at ha; cases ha
+  · intro o ho; rw [e] at ho; cases ho
+    exact ⟨by decide +kernel, by decide +kernel⟩
+
+/-- the shape of the statements below is no restriction: a successful assignment has evaluated
+    its target to a cell and then its source to a cell -/
+theorem assign_decomposes (prog : Program) (n : Nat) (l r : Expr) (op : Token) (s s' : St) (c : CellId)
+    (hop : op.tag = .equal) (hev : evalExpr prog (n + 2) (.binary l r op) s = .ok c s') :
+    ∃ lc s1 rc s2, evalExpr prog n l s = .ok lc s1 ∧ evalExpr prog n r s1 = .ok rc s2 :=
+  assign_ok_decompose prog n l r op s s' c hop hev
+
+example : ∃ lc s1 rc s2, evalExpr Program.empty 10 exDeep exSt = .ok lc s1 ∧
+    evalExpr Program.empty 10 (numL b!"7") s1 = .ok rc s2 :=
+  assign_decomposes Program.empty 10 exDeep (numL b!"7") (tk .equal b!"=") exSt rbDeep3 11 rfl
+    (eq_ok_of_resVal (by decide +kernel))
+
+/-- a path is read-only: the frame theorems above (`assign_existing_frame`, `assign_chain_frame`,
+    …) apply to assignments to paths -/
+theorem path_readOnly (k : Bool) (l : Expr) (hl : l.isPath = true) : Expr.readOnly k l = true :=
+  isPath_readOnly k l hl
+
+example : exDeep.isPath = true ∧ (idx (dot (dot dollar b!"u") b!"a") (numL b!"2")).isPath = true ∧
+    (idx (dot dollar b!"a") (.unary (numL b!"1") (tk .minus b!"-") false)).isPath = false := by
+  decide +kernel
+
+/-- Clause "assigning to a variable, member, index or `$`-path changes exactly the addressed
+    location — creating missing intermediate objects … or arrays …, padding arrays with null up
+    to a new index": the positive part, READ-AFTER-WRITE, for paths of any depth and any mix of
+    existing and missing levels.  `l` a path, `r` read-only (method calls allowed with
+    `k = true` if the program's functions are read-only), the start state well-formed
+    (`PathOK`), and `l = r` succeeded returning the cell `c` in the state `s'`
+    (`h1`, `h2`: its decomposition, `assign_decomposes`).  Then evaluating `l` again in `s'` with
+    the same fuel yields THE SAME CELL `c` and changes nothing (`HeapPreserved`, same bindings,
+    same `$`); `c` never holds a method; and `c` holds the copy of the value `r` evaluated to
+    — if the target existed, or that value is neither unset nor a stand-in, or `r`'s result
+    cell was allocated by evaluating `r` (a literal, an operator, a read of a missing member);
+    for the remaining case see `exSelf` below.
+    Excluded (`hkind`): the target is a method name (`o.length = …`: sets an own key on an
+    object, fails otherwise) or a character of a string (`s[0] = …`: always fails,
+    `assign_scalar_member_errors`).
+    Needed (`hna`): if the target cell exists already, it is not the cell of a proper prefix of
+    the path (`pathCells`) — in a cyclic structure the statement is false, see `exCyc`. -/
+theorem read_after_write (prog : Program) (k : Bool) (n : Nat) (l r : Expr) (op : Token)
+    (s s1 s2 s' : St) (lc rc c : CellId)
+    (hk : k = true → prog.FnsRO) (hl : l.isPath = true) (hr : Expr.readOnly k r = true)
+    (hop : op.tag = .equal) (hok : PathOK s)
+    (h1 : evalExpr prog n l s = .ok lc s1) (h2 : evalExpr prog n r s1 = .ok rc s2)
+    (hev : evalExpr prog (n + 2) (.binary l r op) s = .ok c s')
+    (hkind : (s2.heap.get lc).methodOrChar = false)
+    (hna : (s2.heap.get lc).spec? = none → lc ∉ pathCells prog n l s) :
+    ∃ s'', evalExpr prog n l s' = .ok c s'' ∧ HeapPreserved s'.heap s''.heap ∧
+      s''.frames = s'.frames ∧ s''.ruleRoot = s'.ruleRoot ∧
+      (∀ f b sp, s'.heap.get c ≠ .native f b sp) ∧
+      (((s2.heap.get lc).spec? = none ∨
+          (s2.heap.get rc ≠ .unknown ∧ ∀ sp, s2.heap.get rc ≠ .nil (some sp)) ∨
+          (s1.heap.cells.size ≤ rc ∧ rc < s2.heap.cells.size)) →
+        copyVal (s2.heap.get rc) = .ok (s'.heap.get c)) :=
+  assign_path_readback prog k n l r op s s1 s2 s' lc rc c hk hl hr hop hok h1 h2 hev
+    (methodOrChar_false hkind) hna
+
+/-- `$.u.a[2] = $.s` on the example state (`$.u` unset: it becomes `{"a": [null, null, "hi"]}`):
+    all hypotheses of `read_after_write` hold — target cell 10 is a stand-in, its source cell 4
+    holds a string — hence `$.u.a[2]` evaluates to the returned cell 15 again, which holds the
+    copy of `"hi"` -/
+def rbArrL : Expr := idx (dot (dot dollar b!"u") b!"a") (numL b!"2")
+def rbArr1 : St := resState (evalExpr Program.empty 10 rbArrL exSt)
+def rbArr2 : St := resState (evalExpr Program.empty 10 (dot dollar b!"s") rbArr1)
+def rbArr3 : St := resState (evalExpr Program.empty 12 (assign rbArrL (dot dollar b!"s")) exSt)
+
+example : ∃ s'', evalExpr Program.empty 10 rbArrL rbArr3 = .ok 15 s'' ∧ HeapPreserved rbArr3.heap s''.heap ∧
+    rbArr3.heap.get 15 = .str b!"hi" none := by
+  obtain ⟨s'', e1, e2, _, _, _, e3⟩ := read_after_write Program.empty false 10 rbArrL (dot dollar b!"s")
+    (tk .equal b!"=") exSt rbArr1 rbArr2 rbArr3 10 4 15 (fun h => by cases h) (by decide +kernel)
+    (by decide +kernel) rfl (by decide +kernel) (eq_ok_of_resVal (by decide +kernel))
+    (eq_ok_of_resVal (by decide +kernel)) (eq_ok_of_resVal (by decide +kernel)) (by decide +kernel)
+    (by decide +kernel)
+  have hv : rbArr2.heap.get 4 = .str b!"hi" none := by decide +kernel
+  have := e3 (.inr (.inl ⟨by rw [hv]; simp, by rw [hv]; simp⟩))
+  rw [hv] at this
+  simp only [copyVal, Except.ok.injEq] at this
+  exact ⟨s'', e1, e2, this.symm⟩
+
+/-- read-after-write when the target is MISSING (the path evaluates to a stand-in for a missing
+    member, any number of missing levels below an existing one or an unset one): no aliasing
+    hypothesis is needed — `o.x.y.z = e`, `a[7] = e`, `u.a[2] = e`. -/
+theorem read_after_write_created (prog : Program) (k : Bool) (n : Nat) (l r : Expr) (op : Token)
+    (s s1 s2 s' : St) (lc rc c : CellId) (sp : SpecRef)
+    (hk : k = true → prog.FnsRO) (hl : l.isPath = true) (hr : Expr.readOnly k r = true)
+    (hop : op.tag = .equal) (hok : PathOK s)
+    (h1 : evalExpr prog n l s = .ok lc s1) (h2 : evalExpr prog n r s1 = .ok rc s2)
+    (hev : evalExpr prog (n + 2) (.binary l r op) s = .ok c s')
+    (hsp : s2.heap.get lc = .nil (some sp)) :
+    ∃ s'', evalExpr prog n l s' = .ok c s'' ∧ HeapPreserved s'.heap s''.heap ∧
+      (((s2.heap.get rc ≠ .unknown ∧ ∀ sp, s2.heap.get rc ≠ .nil (some sp)) ∨
+          (s1.heap.cells.size ≤ rc ∧ rc < s2.heap.cells.size)) →
+        copyVal (s2.heap.get rc) = .ok (s'.heap.get c)) := by
+  obtain ⟨s'', e1, e2, _, _, _, e3⟩ := read_after_write prog k n l r op s s1 s2 s' lc rc c hk hl hr hop hok
+    h1 h2 hev (by rw [hsp]; rfl) (by rw [hsp]; intro e; cases e)
+  exact ⟨s'', e1, e2, fun h => e3 (.inr h)⟩
+
+/-- `$.x.y.z = 7` on the example state (three missing levels): `$.x.y.z` evaluates to the returned
+    cell 11 again, which holds the copy of the value of the literal (cell 12, allocated by the
+    evaluation of the source) -/
+example : ∃ s'', evalExpr Program.empty 10 exDeep rbDeep3 = .ok 11 s'' ∧
+    HeapPreserved rbDeep3.heap s''.heap ∧ copyVal (rbDeep2.heap.get 12) = .ok (rbDeep3.heap.get 11) := by
+  obtain ⟨s'', e1, e2, e3⟩ := read_after_write_created Program.empty false 10 exDeep (numL b!"7")
+    (tk .equal b!"=") exSt rbDeep1 rbDeep2 rbDeep3 11 12 11 ⟨9, .str b!"z"⟩ (fun h => by cases h)
+    (by decide +kernel) (by decide +kernel) rfl (by decide +kernel) (eq_ok_of_resVal (by decide +kernel))
+    (eq_ok_of_resVal (by decide +kernel)) (eq_ok_of_resVal (by decide +kernel)) (by decide +kernel)
+  exact ⟨s'', e1, e2, e3 (.inr (by decide +kernel))⟩
+
+/-- with a method call on the right (`k = true`; the empty program has no functions):
+    `$.x.y = $.s.upper()` — two missing levels; `$.x.y` evaluates to the returned cell 9 again -/
+def rbCallL : Expr := dot (dot dollar b!"x") b!"y"
+def rbCallR : Expr := mcall (dot dollar b!"s") b!"upper" []
+def rbCall1 : St := resState (evalExpr Program.empty 10 rbCallL exSt)
+def rbCall2 : St := resState (evalExpr Program.empty 10 rbCallR rbCall1)
+def rbCall3 : St := resState (evalExpr Program.empty 12 (assign rbCallL rbCallR) exSt)
+
+example : ∃ s'', evalExpr Program.empty 10 rbCallL rbCall3 = .ok 9 s'' ∧
+    HeapPreserved rbCall3.heap s''.heap ∧ rbCall3.heap.get 9 = .str b!"HI" none := by
+  obtain ⟨s'', e1, e2, e3⟩ := read_after_write_created Program.empty true 10 rbCallL rbCallR
+    (tk .equal b!"=") exSt rbCall1 rbCall2 rbCall3 9 13 9 ⟨7, .str b!"y"⟩
+    (fun _ f hf => by simp [Program.empty] at hf)
+    (by decide +kernel) (by decide +kernel) rfl (by decide +kernel) (eq_ok_of_resVal (by decide +kernel))
+    (eq_ok_of_resVal (by decide +kernel)) (eq_ok_of_resVal (by decide +kernel)) (by decide +kernel)
+  exact ⟨s'', e1, e2, by decide +kernel⟩
+
+/-- read-after-write when the target EXISTS (every level of the path is there): `c` is the cell
+    the path evaluated to, and it holds the copy of the value of `r` — provided the target cell is
+    not also the cell of a proper prefix of the path. -/
+theorem read_after_write_existing (prog : Program) (k : Bool) (n : Nat) (l r : Expr) (op : Token)
+    (s s1 s2 s' : St) (lc rc c : CellId)
+    (hk : k = true → prog.FnsRO) (hl : l.isPath = true) (hr : Expr.readOnly k r = true)
+    (hop : op.tag = .equal) (hok : PathOK s)
+    (h1 : evalExpr prog n l s = .ok lc s1) (h2 : evalExpr prog n r s1 = .ok rc s2)
+    (hev : evalExpr prog (n + 2) (.binary l r op) s = .ok c s')
+    (hsn : (s2.heap.get lc).spec? = none) (hna : lc ∉ pathCells prog n l s) :
+    c = lc ∧ ∃ s'', evalExpr prog n l s' = .ok lc s'' ∧ HeapPreserved s'.heap s''.heap ∧
+      copyVal (s2.heap.get rc) = .ok (s'.heap.get lc) := by
+  have hmc : (s2.heap.get lc).methodOrChar = false := by
+    cases hv : s2.heap.get lc <;> rw [hv] at hsn <;> simp only [Val.spec?] at hsn <;>
+      first | rfl | (subst hsn; rfl)
+  obtain ⟨s'', e1, e2, _, _, _, e3⟩ := read_after_write prog k n l r op s s1 s2 s' lc rc c hk hl hr hop hok
+    h1 h2 hev hmc (fun _ => hna)
+  have hc : c = lc := by
+    have e := assign_existing_eq prog n l r op s s1 s2 lc rc hop h1 h2 (spec_none_speculative hsn)
+    rw [e] at hev
+    cases hw : copyVal (s2.heap.get rc) with
+    | error m => rw [hw] at hev; simp [Jqawk.throwRt] at hev
+    | ok w => rw [hw] at hev; simp only [Res.ok.injEq] at hev; exact hev.1.symm
+  subst hc
+  exact ⟨rfl, s'', e1, e2, e3 (.inl hsn)⟩
+
+/-- `$.a[0] = $.s` on the example state: the target exists (cell 2), it is not the cell of `$`
+    (cell 0) or `$.a` (cell 1); afterwards `$.a[0]` is cell 2 again and holds the copy of `"hi"` -/
+def rbExL : Expr := idx (dot dollar b!"a") (numL b!"0")
+def rbEx1 : St := resState (evalExpr Program.empty 10 rbExL exSt)
+def rbEx2 : St := resState (evalExpr Program.empty 10 (dot dollar b!"s") rbEx1)
+def rbEx3 : St := resState (evalExpr Program.empty 12 (assign rbExL (dot dollar b!"s")) exSt)
+
+example : ∃ s'', evalExpr Program.empty 10 rbExL rbEx3 = .ok 2 s'' ∧ HeapPreserved rbEx3.heap s''.heap ∧
+    copyVal (rbEx2.heap.get 4) = .ok (rbEx3.heap.get 2) ∧ pathCells Program.empty 10 rbExL exSt = [1, 0] := by
+  obtain ⟨_, s'', e1, e2, e3⟩ := read_after_write_existing Program.empty false 10 rbExL (dot dollar b!"s")
+    (tk .equal b!"=") exSt rbEx1 rbEx2 rbEx3 2 4 2 (fun h => by cases h) (by decide +kernel)
+    (by decide +kernel) rfl (by decide +kernel) (eq_ok_of_resVal (by decide +kernel))
+    (eq_ok_of_resVal (by decide +kernel)) (eq_ok_of_resVal (by decide +kernel)) (by decide +kernel)
+    (by decide +kernel)
+  exact ⟨s'', e1, e2, e3, by decide +kernel⟩
+
+/-- read-after-write for a variable or `$`: after `x = e` succeeded, `x` evaluates to the cell
+    the assignment returned, and that cell holds the copy of the value of `e` — no side
+    conditions beyond the well-formed start state. -/
+theorem read_after_write_var (prog : Program) (k : Bool) (n : Nat) (t : Token) (r : Expr) (op : Token)
+    (s s' : St) (c : CellId)
+    (hk : k = true → prog.FnsRO) (hr : Expr.readOnly k r = true) (hop : op.tag = .equal) (hok : PathOK s)
+    (hev : evalExpr prog (n + 2) (.binary (.ident t) r op) s = .ok c s') :
+    ∃ s1 rc s2 s'', evalExpr prog n (.ident t) s = .ok c s1 ∧ evalExpr prog n r s1 = .ok rc s2 ∧
+      evalExpr prog n (.ident t) s' = .ok c s'' ∧ HeapPreserved s'.heap s''.heap ∧
+      copyVal (s2.heap.get rc) = .ok (s'.heap.get c) := by
+  obtain ⟨lc, s1, rc, s2, h1, h2⟩ := assign_ok_decompose prog n (.ident t) r op s s' c hop hev
+  obtain ⟨_, _, pa1, _⟩ := evalPath_trace prog none n (.ident t) s lc s1 rfl h1 hok (fun _ h => by cases h)
+  have hfine : CellFine s1.heap lc := by
+    cases pa1 with
+    | dollar _ _ hq => exact hq
+    | var _ _ hq => exact hq
+  have q2 := (allRO prog k hk n).expr true r hr s1
+  rw [h2] at q2
+  have ok1 : PathOK s1 := (evalPath_trace prog none n (.ident t) s lc s1 rfl h1 hok (fun _ h => by cases h)).2.1
+  obtain ⟨rel2, _⟩ := q2 (fun _ => ok1.objsInRange)
+  have hsn : (s2.heap.get lc).spec? = none := by rw [rel2.heap.get lc hfine.1]; exact hfine.2
+  have hna : lc ∉ pathCells prog n (.ident t) s := by
+    cases n with
+    | zero => simp [pathCells]
+    | succ n => cases n <;> simp [pathCells]
+  obtain ⟨rfl, s'', e1, e2, e3⟩ := read_after_write_existing prog k n (.ident t) r op s s1 s2 s' lc rc c hk rfl
+    hr hop hok h1 h2 hev hsn hna
+  exact ⟨s1, rc, s2, s'', h1, h2, e1, e2, e3⟩
+
+/-- `x = $.a` for a new variable `x` on the example state: `x` is bound to a fresh cell (6), which
+    afterwards holds the (shared) array of `$.a` -/
+def rbVarE : Expr := assign (.ident (tk .ident b!"x")) (dot dollar b!"a")
+def rbVar3 : St := resState (evalExpr Program.empty 12 rbVarE exSt)
+
+example : ∃ s1 rc s2 s'', evalExpr Program.empty 10 (.ident (tk .ident b!"x")) exSt = .ok 6 s1 ∧
+    evalExpr Program.empty 10 (dot dollar b!"a") s1 = .ok rc s2 ∧
+    evalExpr Program.empty 10 (.ident (tk .ident b!"x")) rbVar3 = .ok 6 s'' ∧
+    HeapPreserved rbVar3.heap s''.heap ∧ copyVal (s2.heap.get rc) = .ok (rbVar3.heap.get 6) :=
+  read_after_write_var Program.empty false 10 (tk .ident b!"x") (dot dollar b!"a") (tk .equal b!"=") exSt
+    rbVar3 6 (fun h => by cases h) (by decide +kernel) rfl (by decide +kernel)
+    (eq_ok_of_resVal (by decide +kernel))
+
+/-! #### what the hypotheses exclude, and why -/
+
+/-- `$ = {"self": <the same object>}`: cell 0 (`$`) and cell 1 (its member `self`) hold the same
+    object -/
+def exCycHeap : Heap := ⟨#[.obj 0, .obj 0], #[], #[[(b!"self", 1)]]⟩
+def exCycSt : St := { exSt with heap := exCycHeap }
+def exCyc : Expr := dot (dot dollar b!"self") b!"self"
+
+/-- `hna` is needed: in the cyclic structure, `$.self.self = 5` overwrites cell 1, which is also the
+    cell of the prefix `$.self`; afterwards `$.self` is the number 5 and `$.self.self` a missing
+    member of a number — the path no longer leads to the cell that was written.  (Every language
+    with references behaves like this; the state is well-formed, all other hypotheses hold.) -/
+example : PathOK exCycSt ∧ pathCells Program.empty 10 exCyc exCycSt = [1, 0] ∧
+    (match evalExpr Program.empty 12 (assign exCyc (numL b!"5")) exCycSt with
+     | .ok c s' =>
+       c == 1 && (match evalExpr Program.empty 10 exCyc s' with
+         | .ok c' s'' => c' != c && s''.heap.get c' == .nil (some ⟨1, .str b!"self"⟩)
+         | _ => false)
+     | _ => false) = true := by decide +kernel
+
+/-- a state that is NOT `PathOK`: the member `y` of `$.m` (cell 2) holds a stale stand-in that claims
+    to stand for the member `m` of `$` -/
+def exStaleHeap : Heap :=
+  ⟨#[.obj 0, .obj 1, .nil (some ⟨0, .str b!"m"⟩)], #[], #[[(b!"m", 1)], [(b!"y", 2)]]⟩
+def exStaleSt : St := { exSt with heap := exStaleHeap }
+def exStale : Expr := dot (dot (dot dollar b!"m") b!"y") b!"k"
+
+/-- `PathOK` is needed (for arbitrary states): `$.m.y.k = 5` treats the stale stand-in as a missing
+    parent, creates "the missing member `m` of `$`" — replacing the existing `$.m` by a fresh
+    object that has no `y` — and the written cell (6) is not where `$.m.y.k` leads afterwards.
+    (No run of the interpreter stores a stand-in as a member without overwriting it, except when
+    the store then fails with "cannot copy a function".) -/
+example : ¬ PathOK exStaleSt ∧
+    (match evalExpr Program.empty 12 (assign exStale (numL b!"5")) exStaleSt with
+     | .ok c s' =>
+       (match evalExpr Program.empty 10 exStale s' with
+        | .ok c' _ => c == 6 && c' != c
+        | _ => false)
+     | _ => false) = true := by decide +kernel
+
+/-- `u.k = u` for an unset variable `u` — the case the value clause of `read_after_write` leaves
+    out (the source cell is the unset base of the target): the store first turns `u` into a fresh
+    object and only then copies the value of `u`, so `u.k` is `u` itself (a cyclic object), not
+    the unset value the source had when it was evaluated.  Read-after-write holds all the same.
+    (The model follows the Go code: `evalAssignment` creates the target, then `copyValue` reads
+    the source cell.) -/
+def exSelf : Expr := assign (dot (.ident (tk .ident b!"u")) b!"k") (.ident (tk .ident b!"u"))
+
+example :
+    (match evalExpr Program.empty 12 exSelf exSt with
+     | .ok c s' =>
+       (match evalExpr Program.empty 10 (.ident (tk .ident b!"u")) s' with
+        | .ok u _ => s'.heap.get u == .obj 1 && s'.heap.get c == .obj 1 &&
+            objLookup (s'.heap.obj 1) b!"k" == some c
+        | _ => false) &&
+       (match evalExpr Program.empty 10 (dot (.ident (tk .ident b!"u")) b!"k") s' with
+        | .ok c' _ => c' == c
+        | _ => false)
+     | _ => false) = true := by decide +kernel
+
+/-- excluded by `hkind` but true on this instance: `$.length = 5` sets an own key `length` on the
+    object, and `$.length` then reads that cell -/
+example :
+    (match evalExpr Program.empty 12 (assign (dot dollar b!"length") (numL b!"5")) exSt with
+     | .ok c s' =>
+       (match evalExpr Program.empty 10 (dot dollar b!"length") s' with
+        | .ok c' _ => c' == c
+        | _ => false)
+     | _ => false) = true := by decide +kernel
+
+
+
+/-! ### copy on argument passing and insertion, sharing of arrays and objects
+
+  Clause: "Scalars are copied on assignment, argument passing and insertion into containers,
+  whereas arrays and objects are shared, so a mutation made through one reference is visible
+  through every other reference."  (Assignment itself: `copyVal_spec`, `copyValue_local`,
+  `assign_existing_frame` above.)  Proofs of the inductions are in Lemmas/CopyShare.lean. -/
+
+/-! #### argument passing -/
+
+/-- Clause "scalars are copied on … argument passing", the callee side: `bindParams` (what a call
+    does after pushing the new frame) from ANY state with a frame succeeds, and: the heap only
+    grows, by one cell per parameter (`HeapPreserved`: every old cell, array and object is as it
+    was); the parameter at position `j` is bound — found by the dynamic lookup, in the innermost
+    frame — to the `j`-th new cell, which is fresh (`size ≤ c < size'`) and holds the `j`-th
+    argument value, or null when there are fewer arguments.  For a name that occurs several times
+    in the parameter list the LAST occurrence wins (`hlast`; see `params_bound_fresh_nodup` for
+    lists without repetition). -/
+theorem params_bound_fresh (ps : List Bytes) (args : List Val) (s : St) (hf : s.frames ≠ []) :
+    ∃ s', bindParams ps args s = .ok () s' ∧ HeapPreserved s.heap s'.heap ∧
+      s'.heap.cells.size = s.heap.cells.size + ps.length ∧
+      s'.frames.tail = s.frames.tail ∧
+      ∀ j p, ps[j]? = some p → (∀ j', j < j' → ps[j']? ≠ some p) →
+        ∃ c, lookupFrames s'.frames p = some c ∧ c = s.heap.cells.size + j ∧
+          s.heap.cells.size ≤ c ∧ c < s'.heap.cells.size ∧
+          s'.heap.get c = args.getD j (.nil none) := by
+  cases hfr : s.frames with
+  | nil => exact absurd hfr hf
+  | cons f fs =>
+    obtain ⟨s', f', h1, h2, h3, _, _, h6, h7, _, _, h10, _⟩ := bindParams_spec ps args s f fs hfr
+    refine ⟨s', h1, h2, h3, by rw [h7]; rfl, ?_⟩
+    intro j p hj hlast
+    have hjlt : j < ps.length := by
+      apply Classical.byContradiction
+      intro hn
+      rw [List.getElem?_eq_none (Nat.le_of_not_lt hn)] at hj
+      cases hj
+    refine ⟨s.heap.cells.size + j, ?_, rfl, Nat.le_add_right _ _, ?_, h6 j hjlt⟩
+    · rw [h7]
+      simp only [lookupFrames, h10 j p hj hlast]
+    · rw [h3]; exact Nat.add_lt_add_left hjlt _
+
+/-- the same for a parameter list without repeated names: position `j` ↦ `j`-th fresh cell -/
+theorem params_bound_fresh_nodup (ps : List Bytes) (args : List Val) (s : St) (hf : s.frames ≠ [])
+    (hnd : ps.Nodup) :
+    ∃ s', bindParams ps args s = .ok () s' ∧ HeapPreserved s.heap s'.heap ∧
+      ∀ j p, ps[j]? = some p →
+        ∃ c, lookupFrames s'.frames p = some c ∧ s.heap.cells.size ≤ c ∧ c < s'.heap.cells.size ∧
+          s'.heap.get c = args.getD j (.nil none) := by
+  obtain ⟨s', h1, h2, _, _, h5⟩ := params_bound_fresh ps args s hf
+  refine ⟨s', h1, h2, ?_⟩
+  intro j p hj
+  have hjlt : j < ps.length := by
+    apply Classical.byContradiction
+    intro hn
+    rw [List.getElem?_eq_none (Nat.le_of_not_lt hn)] at hj
+    cases hj
+  obtain ⟨c, a, _, b, d, e⟩ := h5 j p hj (fun j' hlt hj' => by
+    have := (List.getElem?_inj hjlt hnd).mp (hj.trans hj'.symm)
+    exact absurd this (Nat.ne_of_lt hlt))
+  exact ⟨c, a, b, d, e⟩
+
+/-- non-vacuity and the role of `hlast`: `function f(x, y, x)` called with `(1, "hi", [1,2])`
+    in a fresh frame on the example heap: `y` ↦ cell 7 holding `"hi"`, `x` ↦ cell 8 (the LAST
+    `x`), holding the array; cells 0…5 are as before -/
+example :
+    let s0 : St := { exSt with frames := ⟨b!"f", []⟩ :: exSt.frames }
+    let r := bindParams [b!"x", b!"y", b!"x"] [exHeap.get 2, exHeap.get 4, exHeap.get 1] s0
+    resVal? r = some () ∧ lookupFrames (resState r).frames b!"x" = some 8 ∧
+    lookupFrames (resState r).frames b!"y" = some 7 ∧ (resState r).heap.get 8 = .arr 0 ∧
+    (resState r).heap.get 7 = .str b!"hi" none ∧ sameOld exHeap (resState r).heap = true := by
+  decide +kernel
+
+/-- `evalExpr (.call f args)`: the callee, then the arguments by `evalExprList … true` (each
+    value copied into a fresh cell, `call_args_are_copies`), then `callFunction` -/
+theorem call_unfold (prog : Program) (n : Nat) (f : Expr) (args : List Expr) :
+    evalExpr prog (n + 1) (.call f args) = (do
+      let fnCell ← evalExpr prog n f
+      let argCells ← evalExprList prog n args true
+      callFunction prog n f.token.pos fnCell argCells) := by
+  rw [evalExpr]
+
+/-- … and `callFunction` on a user function: a frame is pushed, the parameters are bound by
+    `bindParams` to the VALUES of the argument cells (`params_bound_fresh`: in fresh cells), the
+    body runs, the saved frames are restored -/
+theorem call_user_function_unfold (prog : Program) (n pos : Nat) (fc : CellId) (argCells : List CellId)
+    (s : St) (i : Nat) (f : FuncDef) (hv : s.heap.get fc = .fn i) (hf : prog.functions[i]? = some f)
+    (hd : ¬ s.frames.length > callDepthLimit) :
+    callFunction prog (n + 1) pos fc argCells s =
+      withFrames s.frames (do
+          bindParams f.args (argCells.map s.heap.get)
+          let rv ← catchReturn (evalStmt prog n f.body)
+          newCell rv)
+        { s with frames := ⟨f.ident.text, []⟩ :: s.frames,
+                 maxDepth := max s.maxDepth (s.frames.length + 1) } := by
+  unfold callFunction
+  simp only [bind, EM.bind, readCell, getHeap, hv, hf, getSt, pushFrame, hd, ↓reduceIte]
+
+/-- Clause "scalars are copied on … argument passing", the caller side: the argument list of a
+    call (`evalExprList … true`) with read-only argument expressions — `k = false`: no calls
+    inside the arguments, any program; `k = true`: method calls with literal non-mutating names
+    under the hypotheses of `readonly_methods` — changes no existing cell, array or object, and
+    yields one cell per argument, pairwise distinct, each of them allocated during this
+    evaluation (`size ≤ c < size'`: no variable, member or element can be that cell) and holding
+    a copy (`FreshCopy`: `copyVal` of some value — by `copyVal_spec` a scalar in a fresh payload
+    that remembers no parent, or the SAME array/object id), hence not a stand-in for a missing
+    member. -/
+theorem call_args_are_copies (prog : Program) (k : Bool) (n : Nat) (es : List Expr) (s s' : St)
+    (cs : List CellId) (hk : k = true → prog.FnsRO ∧ ObjsInRange s.heap) (hro : roEs k es = true)
+    (h : evalExprList prog n es true s = .ok cs s') :
+    HeapPreserved s.heap s'.heap ∧ cs.length = es.length ∧ cs.Pairwise (fun a b => a < b) ∧
+    ∀ c, c ∈ cs → FreshCopy s.heap s'.heap c ∧ (s'.heap.get c).speculative = false := by
+  obtain ⟨p, _, hl, hfc, hpw⟩ :=
+    evalExprList_copy_fresh prog k (fun e => (hk e).1) es n s s' cs hro (fun e => (hk e).2) h
+  exact ⟨p, hl, hpw, fun c hc => ⟨hfc c hc, (hfc c hc).not_speculative⟩⟩
+
+/-- value-precise form (no hypothesis on the expressions): the first argument cell is the next
+    free cell after evaluating the first argument expression, and it receives `copyVal` of the
+    value held by that expression's result cell `v`; the remaining arguments are evaluated
+    afterwards.  (The value is read after the new cell was allocated with the placeholder `""`;
+    for an allocated `v` — the only case that occurs — that is `s1.heap.get v`,
+    `Heap.get_alloc_old`.) -/
+theorem call_arg_copied_from_result (prog : Program) (n : Nat) (e : Expr) (rest : List Expr) (s s' : St)
+    (cs : List CellId) (h : evalExprList prog (n + 1) (e :: rest) true s = .ok cs s') :
+    ∃ v s1 w cs', evalExpr prog n e s = .ok v s1 ∧
+      copyVal ((s1.heap.alloc (.str [] none)).2.get v) = .ok w ∧
+      cs = s1.heap.cells.size :: cs' ∧
+      evalExprList prog n rest true (copiedSt s1 (.str [] none) w) = .ok cs' s' :=
+  evalExprList_copy_cons prog n e rest s s' cs h
+
+/-- the arguments `($.a[0], $.a, $.s.upper())`: three fresh cells 8, 10, 15 (old heap: 0…5); the
+    first holds the number again, the second the SAME array id, the third a string -/
+example :
+    let es := [idx (dot dollar b!"a") (numL b!"0"), dot dollar b!"a", mcall (dot dollar b!"s") b!"upper" []]
+    let r := evalExprList Program.empty 12 es true exSt
+    roEs true es = true ∧ resVal? r = some [8, 10, 15] ∧
+    (resState r).heap.get 8 = exHeap.get 2 ∧ (resState r).heap.get 10 = .arr 0 ∧
+    (resState r).heap.get 15 = .str b!"HI" none ∧ sameOld exHeap (resState r).heap = true := by
+  decide +kernel
+
+/-- Consequence for the caller: an assignment `x = r` to a variable whose cell `c` was allocated
+    after some earlier state `s0` (`s0.heap.cells.size ≤ c` — e.g. a parameter cell,
+    `params_bound_fresh`; `s0` = the state at the call) leaves everything that existed in `s0`
+    unchanged: every cell, array and object of `s0` (`HeapPreserved s0.heap …`).  `r` is
+    read-only as in `assign_var_frame`. -/
+theorem fresh_cell_assign_preserves (prog : Program) (k : Bool) (n : Nat) (t : Token) (r : Expr)
+    (op : Token) (s0 s s2 : St) (c rc : CellId)
+    (hp : HeapPreserved s0.heap s.heap) (hfresh : s0.heap.cells.size ≤ c)
+    (hk : k = true → prog.FnsRO ∧ ObjsInRange s.heap)
+    (hr : Expr.readOnly k r = true) (hop : op.tag = .equal)
+    (ht : (t.tag == Tag.dollar) = false) (hb : lookupFrames s.frames t.text = some c)
+    (hc : c < s.heap.cells.size) (hns : (s.heap.get c).speculative = false)
+    (h2 : evalExpr prog (n + 1) r s = .ok rc s2) :
+    match copyVal (s2.heap.get rc) with
+    | .ok w =>
+      evalExpr prog (n + 3) (.binary (.ident t) r op) s = .ok c { s2 with heap := s2.heap.set c w } ∧
+      HeapPreserved s0.heap (s2.heap.set c w) ∧ (s2.heap.set c w).get c = w
+    | .error m =>
+      evalExpr prog (n + 3) (.binary (.ident t) r op) s = Jqawk.throwRt t.pos m s2 ∧
+      HeapPreserved s0.heap s2.heap := by
+  have h := assign_var_frame prog k n t r op s s2 c rc hk hr hop ht hb hc hns h2
+  have q2 := (allRO prog k (fun e => (hk e).1) (n + 1)).expr true r hr s
+  rw [h2] at q2
+  obtain ⟨r2, _⟩ := q2 (fun e => (hk e).2)
+  cases hcv : copyVal (s2.heap.get rc) with
+  | ok w =>
+    rw [hcv] at h
+    exact ⟨h.1, HeapPreservedExcept.of_fresh hp h.2.1 hfresh, h.2.2⟩
+  | error m =>
+    rw [hcv] at h
+    exact ⟨h, hp.trans r2.heap⟩
+
+/-- Clause "scalars are copied on … argument passing", consequence: inside a call, an assignment
+    to a parameter — `s0` the state after the frame was pushed, `s` the state after `bindParams`,
+    the parameter at position `j` (last occurrence of its name), its argument value not a stand-in
+    for a missing member (true for every value passed by a call expression,
+    `call_args_are_copies`) — writes the parameter's own fresh cell `c` and leaves every cell,
+    array and object of the caller (`s0`) unchanged.  So a callee cannot change a caller's scalar
+    through a parameter; it can change a caller's array or object only by a member store or a
+    mutating method through the shared id (`array_store_visible`, `object_store_visible`). -/
+theorem param_assign_preserves_caller (prog : Program) (k : Bool) (n : Nat) (ps : List Bytes)
+    (args : List Val) (s0 s s2 : St) (j : Nat) (t : Token) (r : Expr) (op : Token) (rc : CellId)
+    (hf : s0.frames ≠ []) (hbind : bindParams ps args s0 = .ok () s)
+    (hj : ps[j]? = some t.text) (hlast : ∀ j', j < j' → ps[j']? ≠ some t.text)
+    (harg : (args.getD j (.nil none)).speculative = false)
+    (hk : k = true → prog.FnsRO ∧ ObjsInRange s.heap)
+    (hr : Expr.readOnly k r = true) (hop : op.tag = .equal) (ht : (t.tag == Tag.dollar) = false)
+    (h2 : evalExpr prog (n + 1) r s = .ok rc s2) :
+    match copyVal (s2.heap.get rc) with
+    | .ok w =>
+      evalExpr prog (n + 3) (.binary (.ident t) r op) s =
+        .ok (s0.heap.cells.size + j) { s2 with heap := s2.heap.set (s0.heap.cells.size + j) w } ∧
+      HeapPreserved s0.heap (s2.heap.set (s0.heap.cells.size + j) w) ∧
+      (s2.heap.set (s0.heap.cells.size + j) w).get (s0.heap.cells.size + j) = w
+    | .error m =>
+      evalExpr prog (n + 3) (.binary (.ident t) r op) s = Jqawk.throwRt t.pos m s2 ∧
+      HeapPreserved s0.heap s2.heap := by
+  obtain ⟨s', h1, hp, _, _, h5⟩ := params_bound_fresh ps args s0 hf
+  rw [hbind] at h1
+  simp only [Res.ok.injEq, true_and] at h1
+  subst h1
+  obtain ⟨c, hl, rfl, hge, hlt, hval⟩ := h5 j t.text hj hlast
+  exact fresh_cell_assign_preserves prog k n t r op s0 s s2 _ rc hp hge hk hr hop ht hl hlt
+    (by rw [hval]; exact harg) h2
+
+/-- `function f(x) { x = 7 }` entered with the argument value `[1,2]` (the array of `$.a`) on the
+    example heap: all hypotheses of `param_assign_preserves_caller` hold (`j = 0`), and indeed
+    the parameter cell 6 receives 7 while `$.a` (cell 1) still holds the array -/
+example :
+    let s0 : St := { exSt with frames := ⟨b!"f", []⟩ :: exSt.frames }
+    let rb := bindParams [b!"x"] [exHeap.get 1] s0
+    let r2 := evalExpr Program.empty 5 (numL b!"7") (resState rb)
+    let r3 := evalExpr Program.empty 7 (assign (.ident (tk .ident b!"x")) (numL b!"7")) (resState rb)
+    rb = .ok () (resState rb) ∧ ([exHeap.get 1].getD 0 (.nil none)).speculative = false ∧
+    r2 = .ok 7 (resState r2) ∧
+    resVal? r3 = some 6 ∧ (resState rb).heap.get 6 = .arr 0 ∧
+    (F64.parse b!"7").map Val.num = some ((resState r3).heap.get 6) ∧
+    (resState r3).heap.get 1 = .arr 0 ∧ sameOld exHeap (resState r3).heap = true := by
+  refine ⟨eq_ok_of_resVal (by decide +kernel), by decide +kernel, eq_ok_of_resVal (by decide +kernel),
+    by decide +kernel, by decide +kernel, by decide +kernel, by decide +kernel, by decide +kernel⟩
+
+/-- Clause "scalars are copied on … argument passing", the syntactic class: a user function whose
+    body is read-only WITHOUT calls except for assignments `p = e` whose target is a bare
+    identifier naming one of its own parameters (`Stmt.roP f.args`: such assignments may appear
+    as statements, in operands, array items, conditions, and on the right of such assignments;
+    object literals and `match` bodies must be plainly read-only — a pattern may rebind a
+    parameter name to the matched cell — and `for … in` is excluded) cannot change anything of
+    its caller: whichever way the call ends, every cell, array and object that existed at the
+    call is unchanged, and so are all variable bindings and the roots (`Unchanged`).  `hargs`:
+    the argument cells do not hold stand-ins for missing members — true for every argument list
+    built by a call expression (`call_args_are_copies`).  Proved by a second mutual induction
+    over the evaluator (Lemmas/CopyShare.lean, `allP`) with the frame invariant "every parameter
+    is bound to a cell allocated after the call" (`PInv`).  NOT covered: bodies with calls
+    (also method calls such as `x.length()`), `++`/`--` on parameters. -/
+theorem call_param_only_function (prog : Program) (n pos : Nat) (fc : CellId) (argCells : List CellId)
+    (s : St) (i : Nat) (f : FuncDef) (hv : s.heap.get fc = .fn i) (hf : prog.functions[i]? = some f)
+    (hbody : Stmt.roP f.args f.body = true)
+    (hargs : ∀ c, c ∈ argCells → (s.heap.get c).speculative = false) :
+    Unchanged s (callFunction prog (n + 1) pos fc argCells s) :=
+  (Unchanged.of_QR (callFunction_paramOnly prog n pos fc argCells s i f hv hf hbody hargs)
+    (fun e => by cases e)).1
+
+/-- `function g(x, y) { if (x < 3) { x = x + 1; y = [x, $.a] } return x }` is in the class;
+    `function h(x) { x[0] = 9 }` (a member store through the parameter) and
+    `function h'(x) { y = x }` (assignment to a non-parameter) are not -/
+example :
+    let x := Expr.ident (tk .ident b!"x")
+    let y := Expr.ident (tk .ident b!"y")
+    Stmt.roP [b!"x", b!"y"] (.block (tk .lcurly b!"{")
+      [.if_ (.binary x (numL b!"3") (tk .lessThan b!"<"))
+        (.block (tk .lcurly b!"{")
+          [.expr (assign x (.binary x (numL b!"1") (tk .plus b!"+"))),
+           .expr (assign y (.arr (tk .lsquare b!"[") [x, dot dollar b!"a"]))]) none,
+       .ret (some x)]) = true ∧
+    Stmt.roP [b!"x"] (.expr (assign (idx x (numL b!"0")) (numL b!"9"))) = false ∧
+    Stmt.roP [b!"x"] (.expr (assign y x)) = false := by
+  decide +kernel
+
+/-! #### insertion into containers -/
+
+/-- Clause "scalars are copied on … insertion into containers", array literal `[e₁, …]` with
+    read-only items: the result cell is new and refers to a NEW array id whose cells are exactly
+    the cells produced by `evalExprList … true` — one per item, pairwise distinct, each allocated
+    during this evaluation and holding a copy (`FreshCopy`), none of them the result cell; no
+    existing cell, array or object changes. -/
+theorem array_literal_copies (prog : Program) (k : Bool) (n : Nat) (t : Token) (items : List Expr)
+    (s s' : St) (c : CellId) (hk : k = true → prog.FnsRO ∧ ObjsInRange s.heap)
+    (hro : roEs k items = true) (h : evalExpr prog (n + 1) (.arr t items) s = .ok c s') :
+    ∃ a cs s1, evalExprList prog n items true s = .ok cs s1 ∧
+      s'.heap.get c = .arr a ∧ s'.heap.arr a = cs.toArray ∧ cs.length = items.length ∧
+      s.heap.cells.size ≤ c ∧ c < s'.heap.cells.size ∧
+      s.heap.arrs.size ≤ a ∧ a < s'.heap.arrs.size ∧
+      HeapPreserved s.heap s'.heap ∧ cs.Pairwise (fun x y => x < y) ∧
+      ∀ cell, cell ∈ cs → FreshCopy s.heap s'.heap cell ∧ cell ≠ c := by
+  obtain ⟨cs, s1, h1, rfl, rfl⟩ := evalExpr_arr_inv prog n t items s s' c h
+  obtain ⟨p, _, hl, hfc, hpw⟩ :=
+    evalExprList_copy_fresh prog k (fun e => (hk e).1) items n s s1 cs hro (fun e => (hk e).2) h1
+  obtain ⟨q1, q2, q3, q4, q5, _⟩ := arrLitHeap_spec s1.heap cs
+  refine ⟨s1.heap.arrs.size, cs, s1, h1, q2, q3, hl, p.cells, ?_, p.arrs, ?_, p.trans q1, hpw, ?_⟩
+  · show s1.heap.cells.size < (arrLitHeap s1.heap cs).cells.size
+    rw [q4]; exact Nat.lt_succ_self _
+  · show s1.heap.arrs.size < (arrLitHeap s1.heap cs).arrs.size
+    rw [q5]; exact Nat.lt_succ_self _
+  · intro cell hc
+    exact ⟨(hfc cell hc).mono (Nat.le_refl _) q1, Nat.ne_of_lt (hfc cell hc).2.1⟩
+
+/-- `[$.a[0], $.a]` on the example heap: a new array (id 1) of two new cells; the first holds the
+    number 1 again (a different cell than the element cell 2 of `$.a`), the second the SAME array
+    id 0 as `$.a` -/
+example :
+    let e := Expr.arr (tk .lsquare b!"[") [idx (dot dollar b!"a") (numL b!"0"), dot dollar b!"a"]
+    let r := evalExpr Program.empty 12 e exSt
+    Expr.readOnly false e = true ∧ resVal? r = some 11 ∧ (resState r).heap.get 11 = .arr 1 ∧
+    (resState r).heap.arr 1 = #[8, 10] ∧ (resState r).heap.get 8 = exHeap.get 2 ∧
+    (resState r).heap.get 10 = .arr 0 ∧ sameOld exHeap (resState r).heap = true := by
+  decide +kernel
+
+/-- Clause "scalars are copied on … insertion into containers", object literal `{k₁: e₁, …}` with
+    read-only member expressions: the result cell is new and refers to a NEW object id; its keys
+    are exactly the keys of the literal; every member cell was allocated during this evaluation,
+    holds a copy (`FreshCopy`) and is not the result cell; no existing cell, array or object
+    changes.  (For a repeated key the later member wins, `objInsert`.) -/
+theorem object_literal_copies (prog : Program) (k : Bool) (n : Nat) (t : Token)
+    (items : List (Bytes × Expr)) (s s' : St) (c : CellId)
+    (hk : k = true → prog.FnsRO ∧ ObjsInRange s.heap)
+    (hro : roKVs k items = true) (h : evalExpr prog (n + 1) (.obj t items) s = .ok c s') :
+    ∃ o, s'.heap.get c = .obj o ∧
+      s.heap.cells.size ≤ c ∧ c < s'.heap.cells.size ∧
+      s.heap.objs.size ≤ o ∧ o < s'.heap.objs.size ∧
+      HeapPreserved s.heap s'.heap ∧
+      (∀ key cell, objLookup (s'.heap.obj o) key = some cell →
+        key ∈ items.map (·.1) ∧ FreshCopy s.heap s'.heap cell ∧ cell ≠ c) ∧
+      (∀ key, key ∈ items.map (·.1) → (objLookup (s'.heap.obj o) key).isSome = true) := by
+  obtain ⟨m, s1, h1, rfl, rfl⟩ := evalExpr_obj_inv prog n t items s s' c h
+  obtain ⟨p, _, hmem, hkeys⟩ :=
+    evalObjItems_copy_fresh prog k (fun e => (hk e).1) items n t.pos [] m s s1 hro (fun e => (hk e).2) h1
+  obtain ⟨q1, q2, q3, q4, q5, _⟩ := objLitHeap_spec s1.heap m
+  refine ⟨s1.heap.objs.size, q2, p.cells, ?_, p.objs, ?_, p.trans q1, ?_, ?_⟩
+  · show s1.heap.cells.size < (objLitHeap s1.heap m).cells.size
+    rw [q4]; exact Nat.lt_succ_self _
+  · show s1.heap.objs.size < (objLitHeap s1.heap m).objs.size
+    rw [q5]; exact Nat.lt_succ_self _
+  · intro key cell hl
+    have hl' : objLookup m key = some cell := by
+      have : (objLitHeap s1.heap m).obj s1.heap.objs.size = m := q3
+      rw [← this]; exact hl
+    rcases hmem key cell hl' with ⟨hin, hf⟩ | ⟨_, hacc⟩
+    · exact ⟨hin, hf.mono (Nat.le_refl _) q1, Nat.ne_of_lt hf.2.1⟩
+    · simp [objLookup] at hacc
+  · intro key hin
+    have : (objLitHeap s1.heap m).obj s1.heap.objs.size = m := q3
+    show (objLookup ((objLitHeap s1.heap m).obj s1.heap.objs.size) key).isSome = true
+    rw [this]
+    exact hkeys key (.inl hin)
+
+/-- `{n: $.a[0], arr: $.a}` on the example heap: a new object (id 1); member `n` is a new cell
+    holding the number 1, member `arr` a new cell holding the SAME array id 0 -/
+example :
+    let e := Expr.obj (tk .lcurly b!"{") [(b!"n", idx (dot dollar b!"a") (numL b!"0")), (b!"arr", dot dollar b!"a")]
+    let r := evalExpr Program.empty 12 e exSt
+    Expr.readOnly false e = true ∧ resVal? r = some 11 ∧ (resState r).heap.get 11 = .obj 1 ∧
+    (resState r).heap.obj 1 = [(b!"n", 8), (b!"arr", 10)] ∧ (resState r).heap.get 8 = exHeap.get 2 ∧
+    (resState r).heap.get 10 = .arr 0 ∧ sameOld exHeap (resState r).heap = true := by
+  decide +kernel
+
+/-- Clause "scalars are copied on … insertion into containers", `a.push(v)`: the array gets
+    exactly ONE new last cell — the next free cell id, so no existing reference denotes it —
+    holding `v`; its earlier cells stay in place; every old cell keeps its value; every other
+    array and every object is unchanged.  `push` itself stores `v` as it is: the copy was made
+    before, when the call expression evaluated its arguments (`call_args_are_copies`;
+    `push_call`). -/
+theorem push_appends_fresh_cell (a : ArrId) (v : Val) (s : St) :
+    ∃ s', callNative .arrPush [v] (some (.arr a)) s = .ok (.ok (some (.arr a))) s' ∧
+      s'.heap.cells.size = s.heap.cells.size + 1 ∧ s'.heap.get s.heap.cells.size = v ∧
+      (∀ c, c < s.heap.cells.size → s'.heap.get c = s.heap.get c) ∧
+      (a < s.heap.arrs.size → s'.heap.arr a = (s.heap.arr a).push s.heap.cells.size) ∧
+      (∀ b, b ≠ a → s'.heap.arr b = s.heap.arr b) ∧ (∀ o, s'.heap.obj o = s.heap.obj o) ∧
+      s'.frames = s.frames ∧ s'.out = s.out := by
+  obtain ⟨h1, h2, h3, h4, h5, _, _⟩ := pushHeap_spec s.heap a v
+  exact ⟨_, callNative_arrPush a v s, h1, h2, h3, h4, h5, fun _ => rfl, rfl, rfl⟩
+
+/-- `recv.push(e)` at the level of `callFunction` (reached from the call expression by
+    `call_unfold`): the callee cell holds the method `push` bound to a cell `b` that holds the
+    array `a`; the one argument cell `argc` comes from `evalExprList … true`, i.e. it is a fresh
+    cell holding a copy; its VALUE is pushed (into yet another fresh cell), and the result is a
+    new cell referring to the same array -/
+theorem push_call (prog : Program) (n pos : Nat) (fc argc b : CellId) (sp : Option SpecRef)
+    (a : ArrId) (s : St) (hf : s.heap.get fc = .native .arrPush (some b) sp)
+    (hb : s.heap.get b = .arr a) :
+    callFunction prog (n + 1) pos fc [argc] s =
+      .ok (s.heap.cells.size + 1)
+        { s with heap := ((pushHeap s.heap a (s.heap.get argc)).alloc (.arr a)).2 } :=
+  callFunction_push prog n pos fc argc b sp a s hf hb
+
+/-- `$.a.push($.a[0])`: `$.a` becomes `[1, 2, 1]`: its third cell is new and differs from the
+    cell of `$.a[0]`; old cells and the object are unchanged -/
+example :
+    let r := evalExpr Program.empty 12 (mcall (dot dollar b!"a") b!"push" [idx (dot dollar b!"a") (numL b!"0")]) exSt
+    let h' := (resState r).heap
+    (resVal? r).isSome = true ∧ (h'.arr 0).size = 3 ∧ (h'.arr 0).getD 0 0 = 2 ∧ (h'.arr 0).getD 1 0 = 3 ∧
+    exHeap.cells.size ≤ (h'.arr 0).getD 2 0 ∧ h'.get ((h'.arr 0).getD 2 0) = exHeap.get 2 ∧
+    oldCellsSame exHeap h' [] = true ∧ h'.obj 0 = exHeap.obj 0 := by
+  decide +kernel
+
+/-! #### sharing of arrays and objects -/
+
+/-- Clause "arrays and objects are shared": the assignment `y = x` (at the level of
+    `evalAssignment`: `y`, `x` the cells of target and source; the target an allocated cell that
+    is not a stand-in for a missing member) where `x` holds an array or an object: afterwards
+    BOTH cells hold the same array/object id; nothing is allocated, no array, no object and no
+    other cell changes — the container itself is not copied. -/
+theorem assign_container_shares (pos : Nat) (y x : CellId) (s : St) (v : Val)
+    (hv : s.heap.get x = v) (hcont : v.isContainer = true)
+    (hy : (s.heap.get y).speculative = false) (hlt : y < s.heap.cells.size) :
+    ∃ s', evalAssignment pos y x s = .ok y s' ∧
+      s'.heap.get y = v ∧ s'.heap.get x = v ∧
+      s'.heap.arrs = s.heap.arrs ∧ s'.heap.objs = s.heap.objs ∧
+      s'.heap.cells.size = s.heap.cells.size ∧
+      ∀ c, c ≠ y → s'.heap.get c = s.heap.get c := by
+  refine ⟨{ s with heap := s.heap.set y v }, ?_, Heap.get_set_same' _ _ _ hlt, ?_, rfl, rfl,
+    Heap.size_set _ _ _, fun c hc => Heap.get_set_ne' _ _ _ _ hc⟩
+  · rw [evalAssignment_plain pos y x s hy, hv, copyVal_container v hcont]
+  · by_cases e : x = y
+    · subst e; exact Heap.get_set_same' _ _ _ hlt
+    · show (s.heap.set y v).get x = v
+      rw [Heap.get_set_ne' _ _ _ _ e]; exact hv
+
+/-- two cells holding the same value are interchangeable as the base of a member store -/
+theorem store_via_either_reference (h : Heap) (c1 c2 : CellId) (key : Val) (cell : CellId)
+    (he : h.get c1 = h.get c2) :
+    setMember h (h.get c1) key cell = setMember h (h.get c2) key cell := by
+  rw [he]
+
+/-- Clause "a mutation made through one reference is visible through every other reference",
+    objects: `c1` and `c2` both hold the object `o`.  Storing the member `key` through `c1`
+    makes `cell` that member, and reading `key` through `c2` afterwards finds exactly that cell
+    (whose value is untouched); both cells still hold `o`; no cell value changes. -/
+theorem object_store_visible (h : Heap) (c1 c2 : CellId) (o : ObjId) (key : Val) (cell : CellId)
+    (h1 : h.get c1 = .obj o) (h2 : h.get c2 = .obj o) (ho : o < h.objs.size)
+    (hkey : isKeyVal key = true) :
+    ∃ h', setMember h (h.get c1) key cell = .ok (cell, h') ∧
+      getMember h' (h'.get c2) key = .ok (.cell cell) ∧
+      h'.get c1 = .obj o ∧ h'.get c2 = .obj o ∧ h'.cells = h.cells ∧ h'.arrs = h.arrs := by
+  obtain ⟨h', e1, e2, _, _, e5, e6⟩ := setMember_object_local h o key cell ho
+  have hget : ∀ c, h'.get c = h.get c := fun c => by simp only [Heap.get, e5]
+  refine ⟨h', by rw [h1]; exact e1, ?_, by rw [hget, h1], by rw [hget, h2], e5, e6⟩
+  rw [hget, h2]
+  cases key <;> simp [isKeyVal] at hkey <;> simp only [getMember, e2]
+
+/-- … arrays, store at an index inside the array: `c1` and `c2` both hold the array `a`.
+    Storing at index `x` through `c1` writes the value of `cell` into the element cell `item`,
+    and reading index `x` through `c2` afterwards finds that element cell, which now holds the
+    stored value; both cells still hold `a`.  (`hn1`, `hn2`: the element cell is not one of the
+    two reference cells themselves — otherwise the store overwrites that reference.) -/
+theorem array_store_visible (h : Heap) (c1 c2 : CellId) (a : ArrId) (x : F64) (cell : CellId) (i : Nat)
+    (h1 : h.get c1 = .arr a) (h2 : h.get c2 = .arr a)
+    (hi : resolveIndex (h.arr a).size x.toGoInt = some i) (hlt : i < (h.arr a).size)
+    (hitem : (h.arr a).getD i 0 < h.cells.size)
+    (hn1 : (h.arr a).getD i 0 ≠ c1) (hn2 : (h.arr a).getD i 0 ≠ c2) :
+    ∃ h', setMember h (h.get c1) (.num x) cell = .ok ((h.arr a).getD i 0, h') ∧
+      getMember h' (h'.get c2) (.num x) = .ok (.cell ((h.arr a).getD i 0)) ∧
+      h'.get ((h.arr a).getD i 0) = h.get cell ∧
+      h'.get c1 = .arr a ∧ h'.get c2 = .arr a ∧ h'.arrs = h.arrs ∧ h'.objs = h.objs := by
+  refine ⟨h.set ((h.arr a).getD i 0) (h.get cell), by rw [h1]; simp [setMember, hi, hlt], ?_,
+    get_set_same _ _ _ hitem, ?_, ?_, rfl, rfl⟩
+  · rw [get_set_ne _ _ _ _ (Ne.symm hn2), h2]
+    have : (h.set ((h.arr a).getD i 0) (h.get cell)).arr a = h.arr a := rfl
+    simp only [getMember, this, hi, hlt, ↓reduceIte]
+  · rw [get_set_ne _ _ _ _ (Ne.symm hn1), h1]
+  · rw [get_set_ne _ _ _ _ (Ne.symm hn2), h2]
+
+/-- … `push`: `c1` and `c2` both hold the array `a`, whose cells are allocated (the part of
+    `Heap.WF` that concerns `a`).  After `push(v)` through `c1`, the array seen through `c2` —
+    still the same id — has the new last element `v`. -/
+theorem push_visible (s : St) (c1 c2 : CellId) (a : ArrId) (v : Val)
+    (h1 : s.heap.get c1 = .arr a) (h2 : s.heap.get c2 = .arr a) (ha : a < s.heap.arrs.size)
+    (hcs : ∀ c, c ∈ (s.heap.arr a).toList → c < s.heap.cells.size) :
+    ∃ s', callNative .arrPush [v] (some (s.heap.get c1)) s = .ok (.ok (some (.arr a))) s' ∧
+      s'.heap.get c1 = .arr a ∧ s'.heap.get c2 = .arr a ∧
+      absArr s'.heap a = absArr s.heap a ++ [v] ∧
+      s'.heap.arr a = (s.heap.arr a).push s.heap.cells.size := by
+  obtain ⟨_, _, h3, h4, _⟩ := pushHeap_spec s.heap a v
+  refine ⟨_, by rw [h1]; exact callNative_arrPush a v s, ?_, ?_, absArr_pushHeap_same' s.heap a v ha hcs, h4 ha⟩
+  · show (pushHeap s.heap a v).get c1 = .arr a
+    rw [h3 c1 (Heap.lt_of_get_ne_unknown _ _ (by rw [h1]; simp)), h1]
+  · show (pushHeap s.heap a v).get c2 = .arr a
+    rw [h3 c2 (Heap.lt_of_get_ne_unknown _ _ (by rw [h2]; simp)), h2]
+
+/-- Clause "scalars are copied on assignment" (contrast to sharing): after `y = x` where `x` holds
+    a value that can be copied (`copyVal … = .ok w`; for a number, string or boolean `w` is that
+    scalar again, `copyVal_spec`) and `y ≠ x`, the two cells are independent: whatever a later
+    assignment `y = z` stores into `y`'s cell — and whichever way it ends — `x`'s cell keeps its
+    value and no array or object changes.  (The only other way to "change a value through `y`",
+    a member store `y[k] = …`, is refused for a scalar: `setMember_refusals`.) -/
+theorem scalar_copy_independent (pos pos' : Nat) (y x z : CellId) (s : St) (w : Val)
+    (hcv : copyVal (s.heap.get x) = .ok w) (hxy : x ≠ y)
+    (hy : (s.heap.get y).speculative = false) (hlt : y < s.heap.cells.size) :
+    ∃ s1, evalAssignment pos y x s = .ok y s1 ∧ s1.heap.get y = w ∧ s1.heap.get x = s.heap.get x ∧
+      After (fun s2 => s2.heap.get x = s.heap.get x ∧ s2.heap.arrs = s.heap.arrs ∧
+          s2.heap.objs = s.heap.objs) (evalAssignment pos' y z s1) ∧
+      evalAssignment pos' y z s1 ≠ .oof := by
+  have hs1 : evalAssignment pos y x s = .ok y { s with heap := s.heap.set y w } := by
+    rw [evalAssignment_plain pos y x s hy, hcv]
+  have hgy : (s.heap.set y w).get y = w := Heap.get_set_same' _ _ _ hlt
+  have hgx : (s.heap.set y w).get x = s.heap.get x := Heap.get_set_ne' _ _ _ _ hxy
+  have hns : (({ s with heap := s.heap.set y w } : St).heap.get y).speculative = false := by
+    show ((s.heap.set y w).get y).speculative = false
+    rw [hgy]; exact copyVal_not_speculative _ _ hcv
+  obtain ⟨a1, a2, a3⟩ := evalAssignment_plain_local pos' y z { s with heap := s.heap.set y w } hns
+  refine ⟨_, hs1, hgy, hgx, ?_, a3⟩
+  cases hr : evalAssignment pos' y z { s with heap := s.heap.set y w } with
+  | ok c s2 =>
+    obtain ⟨_, b2, b3, b4, _⟩ := a1 c s2 hr
+    exact ⟨by rw [b4 x hxy]; exact hgx, b2, b3⟩
+  | err e s2 =>
+    obtain ⟨b1, _⟩ := a2 e s2 hr
+    exact ⟨by rw [b1]; exact hgx, by rw [b1]; rfl, by rw [b1]; rfl⟩
+  | oof => trivial
+
+/-! #### the hypotheses of the sharing theorems are satisfiable -/
+
+/-- the example heap with two more cells: 6 holds the array of `$.a` again, 7 the root object
+    again (as after `y = $.a; z = $`) -/
+def exHeap2 : Heap := { exHeap with cells := exHeap.cells ++ #[.arr 0, .obj 0] }
+def exSt2 : St := { exSt with heap := exHeap2 }
+
+/-- `assign_container_shares` with `x = 1` (`$.a`), `y = 5` (the unset `$.u`) -/
+example : ∃ s', evalAssignment 0 5 1 exSt = .ok 5 s' ∧ s'.heap.get 5 = .arr 0 ∧ s'.heap.get 1 = .arr 0 ∧
+    s'.heap.arrs = exSt.heap.arrs ∧ s'.heap.objs = exSt.heap.objs ∧
+    s'.heap.cells.size = exSt.heap.cells.size ∧ ∀ c, c ≠ 5 → s'.heap.get c = exSt.heap.get c :=
+  assign_container_shares 0 5 1 exSt (.arr 0) (by decide +kernel) rfl (by decide +kernel) (by decide +kernel)
+
+/-- `object_store_visible` with `c1 = 0`, `c2 = 7` (both the root object), key `"s"`, new member
+    cell 3 -/
+example : ∃ h', setMember exHeap2 (exHeap2.get 0) (.str b!"s" none) 3 = .ok (3, h') ∧
+    getMember h' (h'.get 7) (.str b!"s" none) = .ok (.cell 3) ∧
+    h'.get 0 = .obj 0 ∧ h'.get 7 = .obj 0 ∧ h'.cells = exHeap2.cells ∧ h'.arrs = exHeap2.arrs :=
+  object_store_visible exHeap2 0 7 0 (.str b!"s" none) 3 (by decide +kernel) (by decide +kernel)
+    (by decide +kernel) rfl
+
+/-- `array_store_visible` with `c1 = 1`, `c2 = 6` (both the array `[1, 2]`), index 0 (element
+    cell 2), storing the value of cell 4 (`"hi"`) -/
+example : exHeap2.get 1 = .arr 0 ∧ exHeap2.get 6 = .arr 0 ∧
+    resolveIndex (exHeap2.arr 0).size F64.zero.toGoInt = some 0 ∧ 0 < (exHeap2.arr 0).size ∧
+    (exHeap2.arr 0).getD 0 0 < exHeap2.cells.size ∧ (exHeap2.arr 0).getD 0 0 ≠ 1 ∧
+    (exHeap2.arr 0).getD 0 0 ≠ 6 := by decide +kernel
+
+example :
+    (match setMember exHeap2 (exHeap2.get 1) (.num F64.zero) 4 with
+     | .ok (item, h') => item == 2 &&
+         (match getMember h' (h'.get 6) (.num F64.zero) with | .ok (.cell c) => c == 2 | _ => false) &&
+         h'.get 2 == .str b!"hi" none && h'.get 1 == .arr 0 && h'.get 6 == .arr 0
+     | _ => false) = true := by decide +kernel
+
+/-- `push_visible` with `c1 = 1`, `c2 = 6`: the array seen through cell 6 has a third element -/
+example : ∃ s', callNative .arrPush [.bool true] (some (exSt2.heap.get 1)) exSt2 = .ok (.ok (some (.arr 0))) s' ∧
+    s'.heap.get 1 = .arr 0 ∧ s'.heap.get 6 = .arr 0 ∧
+    absArr s'.heap 0 = absArr exSt2.heap 0 ++ [.bool true] ∧
+    s'.heap.arr 0 = (exSt2.heap.arr 0).push exSt2.heap.cells.size :=
+  push_visible exSt2 1 6 0 (.bool true) (by decide +kernel) (by decide +kernel) (by decide +kernel)
+    (by decide +kernel)
+
+/-- `scalar_copy_independent` with `x = 2` (`$.a[0]`, the number 1), `y = 5`, later `y = $.s` -/
+example : ∃ s1, evalAssignment 0 5 2 exSt = .ok 5 s1 ∧ s1.heap.get 5 = .num F64.one ∧
+    s1.heap.get 2 = exSt.heap.get 2 ∧
+    After (fun s2 => s2.heap.get 2 = exSt.heap.get 2 ∧ s2.heap.arrs = exSt.heap.arrs ∧
+      s2.heap.objs = exSt.heap.objs) (evalAssignment 0 5 4 s1) ∧
+    evalAssignment 0 5 4 s1 ≠ .oof :=
+  scalar_copy_independent 0 0 5 2 4 exSt (.num F64.one) rfl (by decide)
+    (by decide +kernel) (by decide +kernel)
+
+/-- `push_call`: the callee `$.a.push` evaluates (cell 8) to the method `push` bound to cell 1,
+    which holds the array 0 -/
+example :
+    let r := evalExpr Program.empty 10 (dot (dot dollar b!"a") b!"push") exSt
+    resVal? r = some 8 ∧
+    (resState r).heap.get 8 = .native .arrPush (some 1) (some ⟨1, .str b!"push"⟩) ∧
+    (resState r).heap.get 1 = .arr 0 := by decide +kernel
+
+/-- `params_bound_fresh_nodup`, `call_user_function_unfold`: the hypotheses hold on the examples -/
+example : [b!"x", b!"y"].Nodup ∧ exSt.frames ≠ [] := by decide +kernel
+
+/-! #### concrete runs on `$ = {"a": [1, 2], "s": "hi", "u": <unset>}` -/
+
+def identE (name : Bytes) : Expr := .ident (tk .ident name)
+def blockS (ss : List Stmt) : Stmt := .block (tk .lcurly b!"{") ss
+
+/-- sharing: `{ y = $.a; y[0] = 9 }` — afterwards `$.a[0]` reads 9: the variable `y` (cell 6)
+    and the member `$.a` (cell 1) hold the same array id, and the store through `y` wrote the
+    element cell 2 of that array -/
+example :
+    let r := evalStmt Program.empty 14 (blockS [.expr (assign (identE b!"y") (dot dollar b!"a")),
+      .expr (assign (idx (identE b!"y") (numL b!"0")) (numL b!"9"))]) exSt
+    let s' := resState r
+    let rd := evalExpr Program.empty 12 (idx (dot dollar b!"a") (numL b!"0")) s'
+    (resVal? r).isSome = true ∧ lookupFrames s'.frames b!"y" = some 6 ∧
+    s'.heap.get 6 = .arr 0 ∧ s'.heap.get 1 = .arr 0 ∧
+    (resVal? rd).map s'.heap.get = (F64.parse b!"9").map Val.num ∧
+    (resVal? rd).map exHeap.get = some (.num F64.one) := by
+  decide +kernel
+
+/-- copying: `{ y = $.a[0]; y = 9 }` — `$.a[0]` still reads 1: `y`'s cell received a copy of
+    the number, and the second assignment wrote only `y`'s cell -/
+example :
+    let r := evalStmt Program.empty 14 (blockS [.expr (assign (identE b!"y") (idx (dot dollar b!"a") (numL b!"0"))),
+      .expr (assign (identE b!"y") (numL b!"9"))]) exSt
+    let s' := resState r
+    let rd := evalExpr Program.empty 12 (idx (dot dollar b!"a") (numL b!"0")) s'
+    (resVal? r).isSome = true ∧ lookupFrames s'.frames b!"y" = some 6 ∧
+    (F64.parse b!"9").map Val.num = some (s'.heap.get 6) ∧
+    (resVal? rd).map s'.heap.get = some (.num F64.one) ∧ sameOld exHeap s'.heap = true := by
+  decide +kernel
+
+/-- a program with `function setFirst(x) { x[0] = 9 }` (index 0) and
+    `function setParam(x) { x = 9 }` (index 1), bound to the globals `setFirst` (cell 6) and
+    `setParam` (cell 7) -/
+def exProgFns : Program :=
+  ⟨[], [⟨tk .ident b!"setFirst", [b!"x"], .expr (assign (idx (identE b!"x") (numL b!"0")) (numL b!"9"))⟩,
+        ⟨tk .ident b!"setParam", [b!"x"], .expr (assign (identE b!"x") (numL b!"9"))⟩]⟩
+
+def exStFns : St :=
+  { exSt with heap := { exHeap with cells := exHeap.cells ++ #[.fn 0, .fn 1] },
+              frames := [⟨b!"<root>", [(b!"setFirst", 6), (b!"setParam", 7)]⟩] }
+
+/-- argument passing shares arrays: `setFirst($.a)` changes `$.a[0]` to 9 (the parameter cell
+    holds the same array id as `$.a`) … -/
+example :
+    let r := evalExpr exProgFns 14 (.call (identE b!"setFirst") [dot dollar b!"a"]) exStFns
+    (resVal? r).isSome = true ∧ (resState r).heap.get 1 = .arr 0 ∧ (resState r).heap.arr 0 = #[2, 3] ∧
+    (F64.parse b!"9").map Val.num = some ((resState r).heap.get 2) ∧
+    (resState r).frames.length = 1 ∧ lookupFrames (resState r).frames b!"x" = none := by
+  decide +kernel
+
+/-- … but the parameter itself is a fresh cell: `setParam($.a)` and `setParam($.a[0])` leave
+    every old cell (in particular `$.a` and `$.a[0]`), the array and the object as they were -/
+example :
+    let r1 := evalExpr exProgFns 14 (.call (identE b!"setParam") [dot dollar b!"a"]) exStFns
+    let r2 := evalExpr exProgFns 14 (.call (identE b!"setParam") [idx (dot dollar b!"a") (numL b!"0")]) exStFns
+    (resVal? r1).isSome = true ∧ sameOld exStFns.heap (resState r1).heap = true ∧
+    (resVal? r2).isSome = true ∧ sameOld exStFns.heap (resState r2).heap = true := by
+  decide +kernel
+
+/-- the hypotheses of `call_param_only_function` hold for `setParam` (function 1 of `exProgFns`,
+    callee cell 7) called with the argument cell 1 (`$.a`); they fail for `setFirst`, whose body
+    stores a member through the parameter — and which does change the caller's array (above) -/
+example :
+    exStFns.heap.get 7 = .fn 1 ∧
+    exProgFns.functions[1]? = some ⟨tk .ident b!"setParam", [b!"x"], .expr (assign (identE b!"x") (numL b!"9"))⟩ ∧
+    Stmt.roP [b!"x"] (.expr (assign (identE b!"x") (numL b!"9"))) = true ∧
+    (∀ c, c ∈ [1] → (exStFns.heap.get c).speculative = false) ∧
+    Stmt.roP [b!"x"] (.expr (assign (idx (identE b!"x") (numL b!"0")) (numL b!"9"))) = false := by
+  refine ⟨by decide +kernel, rfl, by decide +kernel, ?_, by decide +kernel⟩
+  intro c hc
+  simp only [List.mem_singleton] at hc
+  subst hc
+  decide +kernel
+
+example : exStFns.heap.get 6 = .fn 0 ∧ ¬ exStFns.frames.length > callDepthLimit := by decide +kernel
+
 
 end Jqawk.C09
